@@ -56,6 +56,8 @@ def gen_ds(rng):
 		x = rng.randint(0, 9); return DemandSource(type='D', demand_list=x), {'type': 'D', 'list': fr(x)}, None
 	k = rng.randint(2, 5)
 	vals = sorted(rng.sample(range(0, 12), k))
+	if rng.random() < .5:
+		rng.shuffle(vals)          # a demand list is a list of values: any order is legal
 	probs = rng.choice([[0.7, 0.2, 0.1], [0.1] * 10, [1 / 3, 1 / 3, 1 / 3], [0.25, 0.25, 0.5], [0.3, 0.3, 0.4], [0.5, 0.5]])
 	probs = probs[:k] if len(probs) >= k and abs(sum(probs[:k]) - 1) < 1e-9 else [1.0 / k] * k
 	return DemandSource(type='CD', demand_list=vals, probabilities=probs), {'type': 'CD', 'vals': frs(vals), 'probs': frs(probs)}, None
